@@ -280,6 +280,26 @@ impl Prop for C06 {
             },
         ));
 
+        f.push(Family::new(
+            "long-conversion-chains",
+            Mode::Full,
+            "'M in C1 in C2 ... in Cn' for n = 1..=12 conversions over a fixed cycle of rated currencies, M in [10 usd, 2k usd, $5], connectives in / to: the amount in the LAST currency, whatever the number of rewriting passes the line needs",
+            move |ch| {
+                let cycle = ["eur", "try", "gbp", "sek", "dkk", "nok", "jpy", "chf", "pln", "cad", "aud", "usd"];
+                let cycle: Vec<&str> = cycle.iter().copied().filter(|c| spec().rates.contains_key(*c)).collect();
+                let n = 1 + ch.choose(12.min(cycle.len()));
+                let (mt, mv) = *ch.pick(&[("10 usd", 10.0), ("2k usd", 2000.0), ("$5", 5.0)]);
+                let conn = *ch.pick(&["in", "to"]);
+                let mut text = mt.to_string();
+                for c in cycle.iter().take(n) {
+                    text.push_str(&format!(" {} {}", conn, c));
+                }
+                let last = cycle[n - 1];
+                let want = if last == "usd" { mv } else { mv * rate(last) / rate("usd") };
+                Some(Case::Line(LineCase::new(text, Expect::Value(money(want, last), 1e-9), "long chain")))
+            },
+        ));
+
         // (d) rate histories -------------------------------------------------------------
         {
             let depth = tier.pick(2, 3);
